@@ -278,6 +278,10 @@ def standard_trees(ctx, n_random, with_tests=True, eq_share=0.3):
             trees.append(t)
             if rnd.random() < 0.5:
                 trees.append(P.embed(rnd, t))
+            # near misses of every classifier arrangement: one or two operator kinds / leaf classes changed
+            trees.append(P.perturb(rnd, t, 1))
+            if rnd.random() < 0.5:
+                trees.append(P.perturb(rnd, t, 2))
     for i in range(n_random):
         if i % 3 == 1:
             t = P.embed(rnd, P.like_pair(rnd), rnd.randint(0, 2)) if eq_share < 1 else P.like_pair(rnd)
